@@ -781,6 +781,9 @@ func TestC15_Extensions(t *testing.T) {
 			if ts != nil && *ts < 0 {
 				*ts = -*ts
 			}
+			if extRuleBroken(ts) {
+				*ts = 14 // keep clear of the values the extension's own rule rejects
+			}
 			c, err := buildExt(m, ts)
 			if err != nil {
 				t.Fatalf("cannot build extension claims: %v", err)
